@@ -249,15 +249,23 @@ def judge_C01(mm):
     (parse + tree = union of denotations, C01_tree); the treatment is read off an actual (non-preflight) response."""
     if mm['case'].startswith('parse\t'):
         return parse_not_serialised(mm)
-    if not mm['case'].startswith('serve\t'):
+    if not mm['case'].startswith(('serve\t', 'h.serve\t')):
         return None
     sc, r, bits, cfg = _ctx(mm)
-    if r is None or cfg is None or runner.is_preflight(sc):
+    if r is None or runner.is_preflight(sc):
         return None
     origin_vals = sc['req'].get(runner.H_ORIGIN)
-    if not origin_vals or runner.hx('*') in (cfg[0].split(',') if cfg[0] != '~' else []):
-        return None
     mparts = runner.split_resp(mm['model'])
+    if cfg is None:
+        # a request inside a history: the configuration in force is the model's state (the documented state machine, C09);
+        # allow-all shows in the model's own response
+        mr = runner.parse_resp(mparts[0]) if mparts else None
+        if mr is None or mr['hdrs'].get(runner.H_ACAO) == [runner.hx('*')]:
+            return None
+    elif runner.hx('*') in (cfg[0].split(',') if cfg[0] != '~' else []):
+        return None
+    if not origin_vals:
+        return None
     mbits = mparts[2] if len(mparts) > 2 else None
     if not mbits or len(mbits) < 2:
         return None
